@@ -173,12 +173,19 @@ def diag_a(chk, fx):
     from .c16 import chain, is_stream_write, _string_of
     from .. import graph as G
     seen = set()
-    ENTRY_T = "parse_table[$1][@i{nterm_count..(nterm_count + term_count)}]"
+    # the loop over the term columns may count the columns (i from nterm_count) or the terms (i from 0): what matters is
+    # that the cell read and the term named belong to the same column
+    FORMS = [("@i{nterm_count..(nterm_count + term_count)}", "(@i{nterm_count..(nterm_count + term_count)} - nterm_count)"),
+             ("(nterm_count + @i{0..term_count})", "@i{0..term_count}"),
+             ("(@i{0..term_count} + nterm_count)", "@i{0..term_count}")]
+    all_text = " ".join(cn.c(n) for n in walk(f.body) if n.get("k") == "ArraySubscriptExpr")
+    COL, TIDX = next(((c_, t_) for c_, t_ in FORMS if ("parse_table[$1][%s]" % c_) in all_text), FORMS[0])
+    ENTRY_T = "parse_table[$1][%s]" % COL
     ENTRY_N = "parse_table[$1][@i{0..nterm_count}]"
     want = {
         "prefer reduce(": ["gi.rule_infos[%s.arg].r_idx" % ENTRY_T],
         "reduce using (": ["gi.rule_infos[%s.arg].r_idx" % ENTRY_T],
-        "prefer shift over reduce(": ["find_reduction_rule($1, (@i{nterm_count..(nterm_count + term_count)} - nterm_count))"],
+        "prefer shift over reduce(": ["find_reduction_rule($1, %s)" % TIDX],
         " shift to ": ["%s.arg" % ENTRY_T],
         " go to ": ["%s.arg" % ENTRY_N],
     }
@@ -221,7 +228,7 @@ def diag_a(chk, fx):
                               lab, txt.replace(ENTRY_T, "entry"), allowed[0].replace(ENTRY_T, "entry")))
     # term name printed for the column is the column's term
     names = [cn.c(n) for n in walk(f.body) if n.get("k") == "ArraySubscriptExpr" and cn.c(n).startswith("term_names[")]
-    if "term_names[(@i{nterm_count..(nterm_count + term_count)} - nterm_count)]" in names:
+    if ("term_names[%s]" % TIDX) in names:
         chk.ok("DIAG-A", A.site(f), "a term column i is labelled term_names[i - nterm_count]")
     else:
         chk.violation("DIAG-A", A.site(f), "DIAG-A:column-label", "term columns are labelled with %s" % names)
